@@ -110,7 +110,9 @@ def run_case(case):
         for t in range(ntx):
             mode = rng.choice(["ack", "unack"])
             closure = rng.random() < 0.5
-            tc = pdugen.conf(1, 2, 10 + t, idw=2, seqw=2, mode=mode, crc=cfg["crc"])
+            large = (case["seed"] + t) % 6 == 0  # (the sender marks this transaction's PDUs with the large file flag: 64 bit offsets)
+            obs["transactions_with_large_file_flag"] = obs.get("transactions_with_large_file_flag", 0) + int(large)
+            tc = pdugen.conf(1, 2, 10 + t, idw=2, seqw=2, mode=mode, crc=cfg["crc"], large=large)
             kind = rng.choice(["file", "dir", "existing", "dir_existing", "file"])
             if kind in ("file", "existing"):
                 dreq = sb / "dstdir" / f"out{t}.bin"
